@@ -485,7 +485,8 @@ func (w *world) finishRun(soloBudget int) {
 			if w.viol != nil {
 				return
 			}
-			if !w.s.RunSolo(t, soloBudget) && !t.Blocked() && !t.Done {
+			if !w.s.RunSolo(t, soloBudget) && !t.Blocked() && !t.Done && !(w.s.Quarantine != nil && w.s.Quarantine(t)) {
+				// (a task held back by a known-finding window is not one that waits for ever)
 				w.fail("waits-forever", "task %s does not finish within %d solo steps (last at %s)", t.Name, soloBudget, t.Label)
 				return
 			}
